@@ -237,3 +237,61 @@ def forbidden_in(ctx, fn, pat, rule, what, depth=2):
                                                                  hits[0][1].rsplit("::", 1)[-1], hits[0][2], hits[0][0].rsplit("::", 1)[-1], what),
                       fn.file, hits[0][2])
     return 1
+
+
+# ------------------------------------------------------------------ R-SEQ.shared
+PAR_DRIVER = _re.compile(r"rayon::.*(for_each|try_for_each|for_each_with|for_each_init)$|ParallelIterator::(for_each|try_for_each)|"
+                         r"std::thread::spawn$|thread::Scope.*::spawn$|thread::Builder::spawn|tokio::(task::)?spawn$|spawn_blocking$|"
+                         r"rayon::(spawn|scope|join)$|JoinSet<[^>]*>::spawn$")
+_GROW = ("push", "push_back", "extend", "extend_from_slice", "append")
+
+
+def shared_accumulator(ctx, fx, files, rule="R-SEQ.shared", only=None):
+    """pieces produced by parallel tasks are not assembled in completion order: inside the closures of a function that
+    hands work to a parallel driver (rayon for_each, thread / task spawn) no `push`/`extend` goes to a collection reached
+    through a lock guard (`Mutex::lock`, `RwLock::write`) - the order of such pushes is the order in which the tasks
+    happened to finish. A function that afterwards sorts (by an index carried with each piece) is exempt."""
+    allids = [fid for f in files for fid in fx.fn_ids(f) if "::tests::" not in fid and not (only and not only(fid))]
+    parents = {}
+    for fid in allids:
+        for k in range(fx.count(fid)):
+            for b, c in Fn(fx.raw(fid, k)).calls():
+                if PAR_DRIVER.search(c["f"]) or PAR_DRIVER.search(c.get("st") or ""):
+                    parents.setdefault(fid, c["ln"])      # the body that spawns; its nested closures are the tasks
+    n = 0
+    for P in sorted(parents):
+        root = P.split("::{")[0]
+        bodies = [x for x in allids if x == P or x.startswith(P + "::{")]
+        # a sort anywhere in the enclosing function repairs the order
+        for x in allids:
+            if (x == root or x.startswith(root + "::{")) and x not in bodies:
+                for k in range(fx.count(x)):
+                    if any(_re.search(r"^sort(_unstable)?(_by(_key|_cached_key)?)?$", c["f"].rsplit("::", 1)[-1]) for b, c in Fn(fx.raw(x, k)).calls()):
+                        bodies.append(x)
+                        break
+        sorts = False
+        hit = None
+        for bid in bodies:
+            for k in range(fx.count(bid)):
+                bf = Fn(fx.raw(bid, k))
+                for b, c in bf.calls():
+                    last = c["f"].rsplit("::", 1)[-1]
+                    if _re.search(r"^sort(_unstable)?(_by(_key|_cached_key)?)?$", last):
+                        sorts = True
+                    if bid.startswith(P + "::{") and last in _GROW and c["a"] and op_local(c["a"][0]) is not None:
+                        _, sites = bf.backslice([op_local(c["a"][0])], max_nodes=80)
+                        if any(kind == "call" and _re.search(r"Mutex(::)?<[^>]*>::(try_)?lock$|RwLock(::)?<[^>]*>::(try_)?write$", pl["f"])
+                               for loc, kind, pl in sites):
+                            hit = (bid, c["f"], c["ln"], bf.file)
+        n += 1
+        ctx.analysed_fns.add(P)
+        ok = hit is None or sorts
+        ctx.obligation(rule, P, "no completion-ordered shared accumulator", ok,
+                       sample={"fn": P, "driver_line": parents[P], "closures": len(bodies) - 1, "sorted_afterwards": sorts})
+        if not ok:
+            ctx.violation(rule, P, "pieces pushed under a lock from parallel tasks",
+                          "%s hands work to a parallel driver (line %d) and its closure %s appends to a collection behind a lock guard "
+                          "(%s, line %d): the pieces end up in the order the tasks finish, not in input order, and nothing sorts them"
+                          % (P.rsplit("::", 1)[-1], parents[P], hit[0].rsplit("::", 1)[-1], hit[1].rsplit("::", 1)[-1], hit[2]), hit[3], hit[2])
+    ctx.instance(rule + ".parallel_fns", n)
+    return n
